@@ -95,6 +95,7 @@ def run_part(seed, budget):
     for c in classes: src += c["src"] + [""]
     mod = build_module(src, f"c01agg_{seed}"); ns = dict(vars(mod))
     failures, hist, distinct, n = [], collections.Counter(), set(), 0
+    kreqs = []
     for c in classes:
         cls = ns[f"AG{c['i']}"]
         for _ in range(10):
@@ -117,7 +118,7 @@ def run_part(seed, budget):
             why, info = [], {}
             try:
                 v = deserialize(cls, dict(d), additional_properties=ap); got_ok = True
-            except ValidationError as e: got_ok = False; info["errors"] = e.errors[:4]
+            except ValidationError as e: got_ok = False; info["errors"] = e.errors[:4]; info["all_errors"] = e.errors
             except Exception as e: got_ok = None; why.append("crash:" + type(e).__name__); info["msg"] = str(e)[:100]
             if got_ok is not None and got_ok != want_ok: why.append("accepted-but-not-conforming" if got_ok else "conforming-but-rejected")
             elif got_ok:
@@ -127,6 +128,36 @@ def run_part(seed, budget):
                 if v != want: why.append("value-differs-from-the-attribution-of-the-keys"); info.update(got=repr(v)[:300], expected=repr(want)[:300])
             if why:
                 failures.append({"kind": "P", "part": "aggregate-oracle", "features": ["aggregate"], "src": c["src"], "py": f"AG{c['i']}", "datum": repr(d), "additional_properties": ap,
-                                 "why": why, "info": info, "k_ok": None})
+                                 "why": why, "info": {k_: v_ for k_, v_ in info.items() if k_ != "all_errors"}, "k_ok": None})
+            # K: the model's attribution (Api.Agg.attrib, driver op "aggattr") fed with what the *compiled method* holds - aliases, flattened alias sets,
+            # patterns (as the keys of the datum each matches), the additional field - against where the real code put the keys
+            kreqs.append((c, d, ap, got_ok, v if got_ok else None, info.get("all_errors")))
     n += run_skipped(seed, budget, failures, hist, distinct)
+    from apischema import deserialization_method
+    from common import model
+    reqs, metas = [], []
+    for c, d, ap, got_ok, v, errs in kreqs:
+        cls = ns[f"AG{c['i']}"]
+        om = getattr(deserialization_method(cls, additional_properties=ap), "__self__", None)
+        if om is None or not hasattr(om, "pattern_fields"): continue        # (no aggregate field: SimpleObjectMethod)
+        keys = list(d)
+        reqs.append({"op": "aggattr", "id": len(reqs), "aliases": sorted(om.all_aliases), "flattened": [list(f.aliases) for f in om.flattened_fields],
+                     "patterns": [[k for k in keys if f.pattern.match(k)] for f in om.pattern_fields], "additional": om.additional_field is not None, "keys": keys})
+        metas.append((c, d, ap, got_ok, v, errs, om))
+    for (c, d, ap, got_ok, v, errs, om), rep in zip(metas, model(reqs)):
+        hist["K:aggregate-attributions"] += 1
+        bad = None
+        if "error" in rep: bad = {"model": rep}
+        elif got_ok:
+            real_matched = [sorted(getattr(v, f.name)) for f in om.pattern_fields]
+            real_add = sorted(getattr(v, om.additional_field.name)) if om.additional_field is not None else None
+            m_add = sorted(rep["additional"]) if rep["additional"] is not None else None
+            if real_matched != [sorted(g) for g in rep["matched"]] or real_add != m_add or (rep["unexpected"] and not ap):
+                bad = {"real_matched": real_matched, "real_additional": real_add, "model": rep}
+        elif errs is not None and not ap:
+            real_unexp = sorted(e["loc"][0] for e in errs if e["err"] == "unexpected property" and len(e["loc"]) == 1)
+            if real_unexp != sorted(rep["unexpected"]): bad = {"real_unexpected": real_unexp, "model": rep}
+        if bad:
+            failures.append(dict({"kind": "K", "part": "aggregate-oracle", "features": ["aggregate"], "src": c["src"], "py": f"AG{c['i']}", "datum": repr(d), "additional_properties": ap,
+                                  "why": ["model and implementation disagree"], "k_ok": False}, **bad))
     return failures, n, distinct, hist
